@@ -28,9 +28,13 @@ TARGETS = {
 }
 
 
-def sh(cmd, cwd=None, timeout=1800):
-    p = subprocess.run(cmd, shell=True, cwd=cwd, env=ENV, capture_output=True, text=True, timeout=timeout)
-    return p.returncode, p.stdout + p.stderr
+def sh(cmd, cwd=None, timeout=600):
+    try:
+        p = subprocess.run(cmd, shell=True, cwd=cwd, env=ENV, capture_output=True, text=True, timeout=timeout)
+        return p.returncode, p.stdout + p.stderr
+    except subprocess.TimeoutExpired:
+        subprocess.run("pkill -f mutrun- || true", shell=True)
+        return 3, "TIMEOUT"
 
 
 def targets_for(name, path):
@@ -94,6 +98,8 @@ def main():
                     out += out2
                 if rc == 2:
                     classes.append(f"{prop}: HARNESS ERROR")
+                if rc == 3:
+                    classes.append(f"{prop}: CHECK DID NOT TERMINATE WITHIN 600 s")
                 cl = re.findall(r"class(?:/message)?:\s+(\S+)", out)
                 if hit:
                     caught_by.append(prop)
@@ -105,6 +111,16 @@ def main():
                 verdict += " (not by " + ", ".join(missed_by) + ")"
             rows.append((name, tg, verdict, suite + "; " + " | ".join(classes), time.time() - t0))
             print(f"{name}: {verdict} [{time.time() - t0:.0f}s]", flush=True)
+            write_results(rows, only)
+        write_results(rows, only)
+    finally:
+        sh(f"git -C /repo worktree remove --force {SCR}/repo")
+        shutil.rmtree(SCR, ignore_errors=True)
+        sh("git -C /repo worktree prune")
+
+
+def write_results(rows, only):
+    if True:
         with open("/verif/mutants/RESULTS.md" if not only else f"/verif/mutants/RESULTS.partial.md", "w") as f:
             f.write("# Sensitivity: planted changes vs checks\n\n")
             f.write("Produced by `tools/run_mutants.py` (private copy of /repo and of the harness; quick tier, seed 1).\n")
@@ -114,10 +130,6 @@ def main():
                 f.write(f"| {name} | {' '.join(tg)} | {verdict} | {detail} | {secs:.0f} |\n")
             missed = [r for r in rows if r[2].startswith("MISSED")]
             f.write(f"\n{len(rows)} patches, {len(rows) - len(missed)} caught, {len(missed)} missed.\n")
-    finally:
-        sh(f"git -C /repo worktree remove --force {SCR}/repo")
-        shutil.rmtree(SCR, ignore_errors=True)
-        sh("git -C /repo worktree prune")
 
 
 if __name__ == "__main__":
